@@ -28,6 +28,41 @@ static ssize_t nextChar(const struct iovec *curr, const struct iovec *cont, size
 	
 	return part;
 }
+/* first whitespace outside of quoted text, quote state is kept across parts */
+static ssize_t nextSpace(const struct iovec *curr, const struct iovec *cont, size_t clen)
+{
+	static const char space[] = "\t \n\r\v";
+	size_t pos = 0;
+	int match = 0, prev = ' ';
+	
+	while (1) {
+		const uint8_t *ptr = curr->iov_base;
+		size_t i, len = curr->iov_len;
+		
+		for (i = 0; i < len; ++i) {
+			int c = ptr[i];
+			if (match) {
+				/* unset if current is valid end */
+				if (c == match && prev != '\\') {
+					match = 0;
+				}
+			}
+			else if (c == '\'' || c == '"') {
+				match = c;
+				continue;
+			}
+			else if (memchr(space, c, sizeof(space) - 1)) {
+				return pos + i;
+			}
+			prev = c;
+		}
+		pos += len;
+		if (!clen--) {
+			return -2;
+		}
+		curr = cont++;
+	}
+}
 static int notSpace(int c, void *con)
 {
 	(void) con;
@@ -91,11 +126,8 @@ extern ssize_t mpt_message_argv(MPT_STRUCT(message) *msg, int sep)
 	}
 	/* find space character not in escapes */
 	if (!isgraph(sep)) {
-		if ((part = mpt_memtok(&curr, 1, "\t \n\r\v", NULL, "'\"")) >= 0) {
+		if ((part = nextSpace(&curr, cont, clen)) >= 0) {
 			return part;
-		}
-		if (clen && (part = mpt_memtok(cont, clen, "\t \n\r\v", NULL, "'\"")) >= 0) {
-			return curr.iov_len + part;
 		}
 		sep = 0;
 	}
